@@ -22,6 +22,8 @@ pub struct Out {
     pub samples: Vec<String>,
     /// only run monitors, do not print cases (used when replaying)
     pub quiet: bool,
+    /// universal histories are also judged by the (generic) monitor of the property
+    pub monitored: bool,
 }
 
 impl Out {
@@ -37,6 +39,7 @@ impl Out {
             monitor_failures: 0,
             samples: vec![],
             quiet: false,
+            monitored: false,
         }
     }
 
